@@ -2,6 +2,7 @@ package main
 
 import (
 	"fmt"
+	"golang.org/x/tools/go/ssa"
 	"go/constant"
 	"go/types"
 	"math/big"
@@ -521,13 +522,21 @@ func (c *CEnv) evalCall(n *CCall) (TT, error) {
 			return TT{}, fmt.Errorf("ite branches differ: %s vs %s", a.Sort, b.Sort)
 		}
 		return TT{ite(cnd, a.Term, b.Term), a.T}, nil
-	case "int", "int64", "Int", "uint", "uint32", "int32":
+	case "int", "int64", "Int", "uint", "uint32", "int32", "uint64", "uint8", "byte":
 		x, err := c.eval(n.Args[0])
 		if err != nil {
 			return TT{}, err
 		}
 		if x.Sort == SBool {
 			return TT{ite(x.Term, Term{"1", SInt}, Term{"0", SInt}), nil}, nil
+		}
+		switch n.Fn {
+		case "uint32":
+			return TT{T(SInt, "(mod %s 4294967296)", x.S), types.Typ[types.Uint32]}, nil
+		case "uint8", "byte":
+			return TT{T(SInt, "(mod %s 256)", x.S), types.Typ[types.Uint8]}, nil
+		case "uint", "uint64":
+			return TT{T(SInt, "(mod %s 18446744073709551616)", x.S), types.Typ[types.Uint64]}, nil
 		}
 		return TT{x.Term, nil}, nil
 	case "tag":
@@ -616,7 +625,60 @@ func (c *CEnv) evalCall(n *CCall) (TT, error) {
 		}
 		return TT{Term{"(" + n.Fn + " " + strings.Join(parts, " ") + ")", sig.Ret}, nil}, nil
 	}
+	// a real (loop-free) Go function of the repository used in specification position: its SSA is encoded in place
+	if fn := c.goFunc(n.Fn); fn != nil {
+		if len(fn.Params) != len(n.Args) {
+			return TT{}, fmt.Errorf("%s expects %d arguments", n.Fn, len(fn.Params))
+		}
+		var args []Term
+		for i, a := range n.Args {
+			v, err := c.eval(a)
+			if err != nil {
+				return TT{}, err
+			}
+			if v.Sort != e.sortOf(fn.Params[i].Type()) {
+				return TT{}, fmt.Errorf("%s argument %d: sort %s", n.Fn, i, v.Sort)
+			}
+			args = append(args, v.Term)
+		}
+		fr := e.newFrame(fn, nil, "spec:"+fn.Name())
+		exits := e.run(fr, args, c.cur.clone(), tTrue)
+		var rets []*Exit
+		for _, ex := range exits {
+			if ex.kind == "return" {
+				rets = append(rets, ex)
+			}
+		}
+		if len(rets) == 0 || len(rets[0].results) != 1 {
+			return TT{}, fmt.Errorf("%s cannot be used in a specification (needs exactly one result)", n.Fn)
+		}
+		t := rets[len(rets)-1].results[0]
+		for k := len(rets) - 2; k >= 0; k-- {
+			t = ite(rets[k].cond, rets[k].results[0], t)
+		}
+		return TT{e.def("spec_"+fn.Name(), t), fn.Signature.Results().At(0).Type()}, nil
+	}
 	return TT{}, fmt.Errorf("unknown function %s", n.Fn)
+}
+
+func (c *CEnv) goFunc(name string) *ssa.Function {
+	w := c.e.w
+	cands := []string{name, c.pkg + "." + name}
+	if i := strings.Index(name, "."); i >= 0 && !strings.Contains(name, "/") {
+		for path := range w.TPkgs {
+			if strings.HasSuffix(path, "/"+name[:i]) || path == name[:i] {
+				cands = append(cands, path+"."+name[i+1:])
+			}
+		}
+	}
+	for _, k := range cands {
+		if fn := w.Funcs[k]; fn != nil && fn.Blocks != nil {
+			if _, back := blockOrder(fn); len(back) == 0 {
+				return fn
+			}
+		}
+	}
+	return nil
 }
 
 // ---------------------------------------------------------------- modifies targets
